@@ -37,11 +37,11 @@ main = simple_main(
     build_cases,
     "c05_priced_charge_steps",
     {
-        "quick": {"c05_charge_steps": 5000, "c05_priced_charge_steps": 1500, "c05_base_charge_steps": 500, "c05_pickups": 300, "c05_steps_with_gasoline_flow": 20},
-        "thorough": {"c05_charge_steps": 100000, "c05_priced_charge_steps": 30000, "c05_base_charge_steps": 10000, "c05_pickups": 5000, "c05_steps_with_gasoline_flow": 500},
+        "quick": {"c05_charge_steps": 5000, "c05_priced_charge_steps": 1500, "c05_charge_steps_with_nonzero_table_price": 1500, "c05_base_charge_steps": 500, "c05_pickups": 300, "c05_steps_with_gasoline_flow": 20},
+        "thorough": {"c05_charge_steps": 100000, "c05_priced_charge_steps": 30000, "c05_charge_steps_with_nonzero_table_price": 30000, "c05_base_charge_steps": 10000, "c05_pickups": 5000, "c05_steps_with_gasoline_flow": 500},
     },
     "generated scenarios with tariff tables that change during sessions (by station id and by region), plug mixes, both energy types, station and base charging, sessions cut short by "
-    "instructions and by a full battery; a double-entry ledger is kept from the charge hook (vehicle and station before/after each charge step), the pickup events and the state deltas. "
+    "instructions and by a full battery, tariff files with epoch and ISO times, rows naming unknown stations or plugs; a double-entry ledger is kept from the charge hook (vehicle and station before/after each charge step), the pickup events and the state deltas; every payment is priced twice, at the price the station holds and at the price an independent reading of the tariff table (calendar model over the input rows) puts in force for that plug in that step. "
     "non-trivial = at least one charge step at a non-zero tariff; distinct = distinct case hash",
     ["the tariff in force is read from the station as it is when the charge step starts (tariffs change only in the pre-step update)"],
 )
